@@ -1897,6 +1897,12 @@ Proof. split; reflexivity. Qed.
     opens, writes and closes the temporary file) to its end, rename included, and nothing else
     calls write_snapshot - so no two saves ever share the temporary file, and each save is the
     undisturbed attempt of [run_attempt], which is what [dump_always_complete] quantifies over *)
+(** the one-instant read the snapshot model [snapshot_key] assumes: write_snapshot reads a key by one
+    call of get_with_ttl, which copies a sorted set's members while it holds the shard lock (ec066f0;
+    before, the shared set was handed out and its members were read later than its TTL) *)
+Lemma gen_snapshot_read_is_one_instant :
+  Generated.engine_get_with_ttl_copies_zset = true /\ Generated.rdb_snapshot_reads_per_key = 1.
+Proof. split; reflexivity. Qed.
 Lemma gen_tmp_opened_afresh : Generated.rdb_tmp_opened_afresh = true.
 Proof. reflexivity. Qed.
 Lemma gen_saves_serialised :
